@@ -134,6 +134,13 @@ pub(super) struct Local {
 #[repr(align(4))]
 struct Handover(AtomicUsize);
 
+impl Local {
+    /// Will the next generation handed out by [`Slots::get_debt`] wrap around to zero?
+    pub(super) fn wraps_next(&self) -> bool {
+        self.generation.get().wrapping_add(4) == 0
+    }
+}
+
 /// The slots for the helping strategy.
 pub(super) struct Slots {
     /// The control structure of the slot.
